@@ -7,6 +7,7 @@ provided by `FileSystemCommands` class.  See `SubversionCommands` and
 
 """
 
+import errno
 import os
 import re
 import shutil
@@ -42,6 +43,13 @@ class FileSystemCommands:
         os.mkdir(path)
 
     def move(self, path, new_location):
+        # For a folder shutil.move() falls back to copytree(), which silently
+        # creates missing parents that no change records (undo left them behind)
+        parent = os.path.dirname(new_location)
+        if parent and not os.path.isdir(parent):
+            raise FileNotFoundError(
+                errno.ENOENT, os.strerror(errno.ENOENT), new_location
+            )
         shutil.move(path, new_location)
 
     def remove(self, path):
